@@ -7,9 +7,21 @@
                reverses the literal of a Multi (stored in text order), keeps list order of
                concatenations (the parser already put them in evaluation order).
 
-   PROVED (running list)
-     - [x] option bits under flip_opt, tlen / char_at of the mirrored environment
-     - [ ] leaves, combinators, sem, attempt, find
+   PROVED (running list; everything below is Qed, nothing pending)
+     - option bits under flip_opt (flip_is_rtl, flip_is_ci), tlen / char_at of the mirrored environment
+     - leaves: avail/dir/next_char, run_len, sem_charloop, str_match_at / sem_multi,
+       ref_match_at / sem_ref, is_boundary / anchor_ok (all anchors except EndZ), capture stacks
+     - combinators bindl/bindr/appr/first_only and the generic loop [iter]
+     - sem_pos_in_range: sem maps in-range states to in-range states (fragment mirror_ok)
+     - mirror_sem_partial: sem (mirror_env e) fuel (flip t) (mirror_st e s)
+                           = map_res (map (mirror_st e)) (sem e fuel t s)      (fragment mirror_ok)
+     - mirror_attempt_partial, mirror_scan_from_partial, mirror_find_partial,
+       mirror_find_as_opposite_partial / mirror_rtl_is_mirrored_ltr_partial
+     - involutions: flip_invol, flip_mirror_ok, mirror_env_invol, mirror_st_invol, mirror_st_ok_mirror
+     - EndZ under endz_strict: mirror_sem_endz_to_end, mirror_sem_endz_strict_partial,
+       mirror_find_endz_strict_partial
+     - NOT symmetric: mirror_balance_refuted (capture-recording balancing groups),
+       mirror_endz_no_mirror_anchor (non-strict EndZ has no mirror anchor)
 
    All lemma names are prefixed mirror_/flip_ (topic prefix). *)
 From Coq Require Import ZifyBool.
@@ -1208,3 +1220,109 @@ Proof.
 Qed.
 
 End EndZ.
+
+(* ---------------------------------------------------------------------------------------------- *)
+(* What is NOT mirror-symmetric (concrete witnesses)                                              *)
+(* ---------------------------------------------------------------------------------------------- *)
+(* a small concrete environment: ASCII letters are word characters, no sets, identity lower-casing *)
+Definition mirror_ex_env (t : list Z) (start : Z) (strict : bool) : env :=
+  {| txt := t; tstart := start; ecma := false; endz_strict := strict;
+     set_in := fun _ _ => false; lower := fun c => c;
+     is_word := fun c => (97 <=? c) && (c <=? 122);
+     is_eword := fun c => (97 <=? c) && (c <=? 122) |}.
+
+(* (?<a>x)z(?<b-a>y)  (a = group 1, b = group 2), left-to-right, on "xzy" *)
+Definition mirror_ex_balance : node :=
+  NConcat 0 [NCapture 0 1 (-1) (NChar COne 0 120); NChar COne 0 122; NCapture 0 2 1 (NChar COne 0 121)].
+
+(* Balancing groups that record a capture are NOT mirror-symmetric: left-to-right, group b gets the
+   text BETWEEN the popped capture and the new one, (1,1) = "z"; in the mirrored search (the
+   right-to-left pattern (?<b-a>y)z(?<a>x) on "yzx") [balance_span] = runner.go transferCapture takes
+   its second branch ("end <= start2: start = start2") and records index 2, length -1.
+   The real engine does the same (and its tidy step then drops the negative-length capture). *)
+Theorem mirror_balance_refuted :
+  let e := mirror_ex_env [120; 122; 121] 0 false in
+  let s := {| pos := 0; caps := [] |} in
+  st_ok e s /\
+  map_res (map (mirror_st e)) (sem e 10 mirror_ex_balance s)
+    = Ok [{| pos := 0; caps := [(1, []); (2, [(1, 1)])] |}] /\
+  sem (mirror_env e) 10 (flip mirror_ex_balance) (mirror_st e s)
+    = Ok [{| pos := 0; caps := [(1, []); (2, [(2, -1)])] |}].
+Proof.
+  cbv zeta. split; [|split; vm_compute; reflexivity].
+  split; [vm_compute; split; congruence|constructor].
+Qed.
+
+(* Without RE2/ECMAScript, no anchor of the node language is the mirror image of EndZ: whatever
+   anchor a' one picks, some text and in-range position tell them apart. *)
+Definition mirror_endz_witness (a' : anchor) : env * Z :=
+  match a' with
+  | ABol => (mirror_ex_env [97; 10; 10] 0 false, 1)
+  | AEol => (mirror_ex_env [97; 98] 0 false, 2)
+  | ABoundary => (mirror_ex_env [97; 98] 0 false, 0)
+  | ANonboundary => (mirror_ex_env [97; 98] 0 false, 2)
+  | ABeginning => (mirror_ex_env [97; 10] 0 false, 1)
+  | AStart => (mirror_ex_env [97; 98] 0 false, 0)
+  | AEndZ => (mirror_ex_env [97; 98] 0 false, 2)
+  | AEnd => (mirror_ex_env [97; 98] 0 false, 2)
+  | AECMABoundary => (mirror_ex_env [97; 98] 0 false, 0)
+  | ANonECMABoundary => (mirror_ex_env [97; 98] 0 false, 2)
+  end.
+
+Theorem mirror_endz_no_mirror_anchor : forall a',
+  let e := fst (mirror_endz_witness a') in let p := snd (mirror_endz_witness a') in
+  endz_strict e = false /\ 0 <= p <= tlen e /\
+  anchor_ok (mirror_env e) a' (tlen e - p) <> anchor_ok e AEndZ p.
+Proof.
+  intros a'. destruct a'; vm_compute; repeat split; congruence.
+Qed.
+
+(* ---------------------------------------------------------------------------------------------- *)
+(* Concrete instances used by Properties/C15.v (non-vacuity)                                      *)
+(* ---------------------------------------------------------------------------------------------- *)
+(* (a+)(b|c) parsed with RightToLeft: every node carries the Rtl bit (64) and the parser has already
+   reversed the concatenation, so the list is in evaluation order: (b|c) first, then a+. *)
+Definition mirror_ex_rtl : node :=
+  NCapture 64 0 (-1)
+    (NConcat 64 [NCapture 64 2 (-1) (NAlternate 64 [NChar COne 64 98; NChar COne 64 99]);
+                 NCapture 64 1 (-1) (NCharLoop COne LGreedy 64 97 1 INF)]).
+
+(* a left-to-right mix: non-boundary, a lookbehind for x (Rtl child), a lookahead containing a capture
+   of "aa", a back-reference to it, an atomic greedy loop of a, a conditional on group 1 (b, else c),
+   a negative lookahead for z, and End *)
+Definition mirror_ex_mixed : node :=
+  NCapture 0 0 (-1)
+    (NConcat 0 [NAnchor ANonboundary;
+                NPosLook 64 (NChar COne 64 120);
+                NPosLook 0 (NCapture 0 1 (-1) (NMulti 0 [97; 97]));
+                NRef 0 1;
+                NAtomic (NLoop false 0 0 INF (NChar COne 0 97));
+                NBackRefCond 0 1 (NChar COne 0 98) (Some (NChar COne 0 99));
+                NNegLook 0 (NChar COne 0 122);
+                NAnchor AEnd]).
+
+(* ---------------------------------------------------------------------------------------------- *)
+(* Statement forms used by Properties/C15.v                                                       *)
+(* ---------------------------------------------------------------------------------------------- *)
+Lemma mirror_sem_pos_in_range_list : forall (e : env) (fuel : nat) (t : node) (s : st) (l : list st),
+  mirror_ok t = true -> st_ok e s -> sem e fuel t s = Ok l -> Forall (st_ok e) l.
+Proof.
+  intros e fuel t s l Ht Hs H. pose proof (sem_pos_in_range e fuel t s Ht Hs) as R.
+  rewrite H in R. exact R.
+Qed.
+
+Lemma mirror_rtl_is_mirrored_ltr_partial : forall (e : env) (fuel : nat) (root : node) (start prevlen : Z),
+  mirror_ok root = true -> 0 <= start <= tlen e ->
+  find e fuel root true start prevlen
+  = map_res (option_map (mirror_st (mirror_env e)))
+      (find (mirror_env e) fuel (flip root) false (tlen e - start) prevlen).
+Proof. intros e fuel root. exact (mirror_find_as_opposite_partial e fuel root true). Qed.
+
+Lemma mirror_involution_all :
+  (forall t, flip (flip t) = t) /\ (forall t, mirror_ok (flip t) = mirror_ok t) /\
+  (forall e, mirror_env (mirror_env e) = e) /\
+  (forall e s, mirror_st (mirror_env e) (mirror_st e s) = s) /\
+  (forall e s, st_ok e s -> st_ok (mirror_env e) (mirror_st e s)).
+Proof.
+  exact (conj flip_invol (conj flip_mirror_ok (conj mirror_env_invol (conj mirror_st_invol mirror_st_ok_mirror)))).
+Qed.
